@@ -909,7 +909,8 @@ def parblock_ranges(fx):
     probably-sparse or has no extent map, and in both of those cases it is built on every non-failing path."""
     import views, p_thread
     obs = []
-    hosts = [(lab, v) for lab, v in copy_hosts(fx) if q.calls_to(v, POOL_EXECUTE)]
+    # the worker role from which block jobs are queued (directly, or through closures of iterator pipelines)
+    hosts = [(lab, v) for lab, v in views.workers(fx) if ro.performers(fx, v, POOL_EXECUTE)]
     if not hosts:
         return [anchor_ob("R-ORDER", "a worker role that queues block jobs on the pool")]
     for lab, v in hosts:
@@ -917,6 +918,10 @@ def parblock_ranges(fx):
         du = defuse(v)
         execs = q.calls_to(v, POOL_EXECUTE)
         exec_closures = set(fv for bi, t in execs for fv in t["fn"].get("fnvals", []))
+        # closures (of lazy adaptors) inside which the jobs are queued count as the place the range flows to
+        for bi, t, how in ro.performers(fx, v, POOL_EXECUTE):
+            if how != "direct":
+                exec_closures |= set(t["fn"].get("fnvals", []))
         # whole-file ranges: Range{const 0, x} aggregates that flow into a block job
         W = []
         ext_ranges = 0
